@@ -51,6 +51,8 @@ def configs(run, d):
         ("biglimits-smallstack", base + b"log_message_max_length = 1048575\ndatasource_message_max_length = 1048575\noutput = file:" + out.encode() + b"\nmessage_format = \"%{cmdline} %{env_all}\"\n"),
         # every data source in the format, and the caller's strings inside libc's static result buffers (getpwuid/getgrgid/getpwnam)
         ("allds-libcbuf", base + b"output = file:" + out.encode() + b"\nmessage_format = \"" + all_ds_format(run).encode() + b"\"\n"),
+        # the exec-calling child's parent carries a command name that looks like the tail of a stat line: ") S <its own pid>"
+        ("spawns-statlike-comm", base + b"output = file:" + out.encode() + b"\nfilter_chain = \"exclude_spawns_of:nosuchprogram,sshd\"\n"),
         ("smallmsg", base + b"log_message_max_length = 255\ndatasource_message_max_length = 255\noutput = file:" + out.encode() + b"\n"),
     ]
 
@@ -171,11 +173,13 @@ def check(run):
                 k += 1
         if name.endswith("smallstack"):
             script.insert(7, "stack\t192")
+        if name.startswith("spawns-statlike"):
+            script.insert(7, "comm\t" + hexs(b") S @PID@"))
         if name.endswith("libcbuf"):
             script.insert(7, "libcbuf\t1")
         if ci % 4 == 1:
             script.insert(7, "env\t~")    # environ == NULL in this process
-        res = run_script(run, lib, script, "c01-%d" % ci, timeout=300)
+        res = run_script(run, lib, script, "c01-%d" % ci, timeout=60 if name.startswith("spawns-") else 300)
         return (ci, name, plan, res, script)
 
     results = run_many(job, jobs, workers=8)
